@@ -9,6 +9,30 @@ SOURCE_COMMITS = []   # hook commits in /repo (none: contracts live in /verif); 
 UNCLAIMED = {}
 
 
+# Guard against attaching a loop contract to the wrong loop after an edit of the function (CBMC numbers loops by position): the source
+# line of loop n of f must still contain these tokens, otherwise the job ends UNDECIDED ("extraction"), never with a violation.
+LOOP_HEADS = {
+    ("cellToParent", 0): ["for", "parentRes + 1", "childRes"],
+    ("maxPolygonToCellsSizeExperimental", 0): ["while", "iter._res > 0"],
+    ("maxPolygonToCellsSizeExperimental", 1): ["for", "iter.cell", "iterStepPolygonCompact"],
+    ("gridRingUnsafe", 0): ["for", "ring", "< k"],
+    ("gridRingUnsafe", 1): ["for", "pos", "< k"],
+    ("gridRingUnsafe", 2): ["for", "direction", "< 6"],
+    ("gridDiskDistancesUnsafe", 0): ["while", "ring <= k"],
+    ("polygonToCellsExperimental", 0): ["for", "iter.cell", "iterStepPolygon"],
+    ("_gridDiskDistancesInternal", 0): ["while", "out[off]"],
+    ("_gridDiskDistancesInternal", 1): ["for", "i < 6"],
+    ("gridPathCells", 0): ["for", "n <= distance"],
+    ("uncompactCells", 0): ["for", "IterCellsChildren iter"],
+    ("uncompactCells", 1): ["for", "j < numCompacted"],
+    ("uncompactCellsSize", 0): ["for", "i < numCompacted"],
+    ("getIcosahedronFaces", 0): ["for", "i < faceCount"],
+    ("getIcosahedronFaces", 1): ["while", "out[pos]"],
+    ("getIcosahedronFaces", 2): ["for", "i < vertexCount"],
+    ("cellToChildren", 0): ["for", "IterCellsChildren iter", "iter.h"],
+}
+
+
 def J(**kw):
     kw.setdefault("tier", "quick")
     JOBS.append(kw)
